@@ -15,7 +15,7 @@ from collections import Counter
 from lib import common, psess, ptrace
 from lib.proto import Relay
 
-THEOREMS_TIED = ["C13_eose_at_most_once", "C13_req_outcomes", "C13_query_runs_to_eose", "C13_limit", "C13_limit_refusal_intact",
+THEOREMS_TIED = ["C13_eose_at_most_once", "C13_req_outcomes", "C13_query_runs_to_eose", "C13_req_answered_settled", "C13_limit", "C13_limit_refusal_intact",
                  "C13_unsubscribe_effect", "C13_cancelled_puts_no_event", "C13_nothing_after_disconnect", "C13_query_enabled",
                  "C13_send_enabled"]
 
